@@ -9,7 +9,7 @@ import Mathlib.Tactic.NormNum
 What is PROVED here (for all vectors over any ordered field with a square root, and over ℝ with
 `Real.sqrt`), against definitions regenerated from /repo's headers on every run:
 
-* `Gen.V2/V3/V4.length tmin sqrt v = sqrt (v·v)` for every `v` and every `tmin` — on both sides of the
+* `Gen.V2/V3/V4.length tmin tmax sqrt v = sqrt (v·v)` for every `v` and every `tmin` — on both sides of the
   `dot < 2*tmin` threshold; the `lengthTiny` branch `max * sqrt (Σ (xᵢ/max)²)` equals `sqrt (Σ xᵢ²)` and returns
   0 only when every component is 0 (`Lemmas/C08Lemmas.lean`, `Lemmas/C08LemmasV4.lean`: 5 / 65 / 257 paths);
 * `length v = 0 ↔ v = 0`;  `length2 v = dot v v`;
@@ -47,17 +47,17 @@ theorem V2_dot_self (a : V2 α) : Gen.C08.V2.dot a a = dotSelf2 a := by
 
 /-- `Vec2::length()` — the real body with `lengthTiny` inlined — is `sqrt (v·v)` for every vector and every
 threshold parameter `tmin`, i.e. on BOTH sides of `dot < 2*tmin`. -/
-theorem V2_length_spec (tmin : α) (hsqrt : ∀ x, 0 ≤ x → sqrt x * sqrt x = x ∧ 0 ≤ sqrt x) (a : V2 α) :
-    Gen.V2.length tmin sqrt a = sqrt (Gen.C08.V2.dot a a) := by
-  rw [V2_length_eq tmin hsqrt a, V2_dot_self]; rfl
+theorem V2_length_spec (tmin tmax : α) (hsqrt : ∀ x, 0 ≤ x → sqrt x * sqrt x = x ∧ 0 ≤ sqrt x) (a : V2 α) :
+    Gen.V2.length tmin tmax sqrt a = sqrt (Gen.C08.V2.dot a a) := by
+  rw [V2_length_eq tmin tmax hsqrt a, V2_dot_self]; rfl
 
-theorem V2_length_nonneg (tmin : α) (hsqrt : ∀ x, 0 ≤ x → sqrt x * sqrt x = x ∧ 0 ≤ sqrt x) (a : V2 α) : 0 ≤ Gen.V2.length tmin sqrt a :=
-  (V2_length_sq tmin hsqrt a).2
+theorem V2_length_nonneg (tmin tmax : α) (hsqrt : ∀ x, 0 ≤ x → sqrt x * sqrt x = x ∧ 0 ≤ sqrt x) (a : V2 α) : 0 ≤ Gen.V2.length tmin tmax sqrt a :=
+  (V2_length_sq tmin tmax hsqrt a).2
 
 /-- `length()` is zero only for the zero vector -/
-theorem V2_length_eq_zero_iff (tmin : α) (hsqrt : ∀ x, 0 ≤ x → sqrt x * sqrt x = x ∧ 0 ≤ sqrt x) (a : V2 α) :
-    Gen.V2.length tmin sqrt a = 0 ↔ a = ⟨0, 0⟩ := by
-  rw [V2_length_eq tmin hsqrt a]
+theorem V2_length_eq_zero_iff (tmin tmax : α) (hsqrt : ∀ x, 0 ≤ x → sqrt x * sqrt x = x ∧ 0 ≤ sqrt x) (a : V2 α) :
+    Gen.V2.length tmin tmax sqrt a = 0 ↔ a = ⟨0, 0⟩ := by
+  rw [V2_length_eq tmin tmax hsqrt a]
   exact (sqrt_eq_zero_iff hsqrt (dotSelf2_nonneg a)).trans (dotSelf2_eq_zero a)
 
 /-- `length2()` is the dot product of the vector with itself -/
@@ -68,141 +68,141 @@ theorem V2_length2 (a : V2 α) : Gen.C08.V2.length2 a = Gen.C08.V2.dot a a := by
 
 /-- `normalize()`: the vector of quotients `aᵢ / ‖a‖` (for `a = 0` every quotient is `0 / 0 = 0` in a field, and the
 C++ returns the zero vector there, see `V2_normalize_zero`) -/
-theorem V2_normalize_eq (tmin : α) (hsqrt : ∀ x, 0 ≤ x → sqrt x * sqrt x = x ∧ 0 ≤ sqrt x) (a : V2 α) :
-    Gen.C08.V2.normalize tmin sqrt a = ⟨a.x / sqrt (dotSelf2 a), a.y / sqrt (dotSelf2 a)⟩ := by
+theorem V2_normalize_eq (tmin tmax : α) (hsqrt : ∀ x, 0 ≤ x → sqrt x * sqrt x = x ∧ 0 ≤ sqrt x) (a : V2 α) :
+    Gen.C08.V2.normalize tmin tmax sqrt a = ⟨a.x / sqrt (dotSelf2 a), a.y / sqrt (dotSelf2 a)⟩ := by
   by_cases ha : a = ⟨0, 0⟩
-  · subst ha; simp [Gen.C08.V2.normalize, V2_length_eq tmin hsqrt, dotSelf2, sqrt_zero hsqrt]
+  · subst ha; simp [Gen.C08.V2.normalize, V2_length_eq tmin tmax hsqrt, dotSelf2, sqrt_zero hsqrt]
   · have hn := (norm2_pos hsqrt ha).ne'
     obtain ⟨x, y⟩ := a
     simp only [dotSelf2] at hn
-    simp only [Gen.C08.V2.normalize, V2_length_eq tmin hsqrt, dotSelf2, if_neg hn]
+    simp only [Gen.C08.V2.normalize, V2_length_eq tmin tmax hsqrt, dotSelf2, if_neg hn]
     first | done | (congr 1 <;> ring)
 
-theorem V2_normalize_of_ne_zero (tmin : α) (hsqrt : ∀ x, 0 ≤ x → sqrt x * sqrt x = x ∧ 0 ≤ sqrt x) (a : V2 α) (ha : a ≠ ⟨0, 0⟩) :
-    IsNormalized2 sqrt a (Gen.C08.V2.normalize tmin sqrt a) := by
-  rw [V2_normalize_eq tmin hsqrt a]; exact isNormalized2_div hsqrt ha
+theorem V2_normalize_of_ne_zero (tmin tmax : α) (hsqrt : ∀ x, 0 ≤ x → sqrt x * sqrt x = x ∧ 0 ≤ sqrt x) (a : V2 α) (ha : a ≠ ⟨0, 0⟩) :
+    IsNormalized2 sqrt a (Gen.C08.V2.normalize tmin tmax sqrt a) := by
+  rw [V2_normalize_eq tmin tmax hsqrt a]; exact isNormalized2_div hsqrt ha
 
-theorem V2_normalize_zero (tmin : α) (hsqrt : ∀ x, 0 ≤ x → sqrt x * sqrt x = x ∧ 0 ≤ sqrt x) :
-    Gen.C08.V2.normalize tmin sqrt ⟨0, 0⟩ = ⟨0, 0⟩ := by
-  simp [Gen.C08.V2.normalize, V2_length_eq tmin hsqrt, sqrt_zero hsqrt]
+theorem V2_normalize_zero (tmin tmax : α) (hsqrt : ∀ x, 0 ≤ x → sqrt x * sqrt x = x ∧ 0 ≤ sqrt x) :
+    Gen.C08.V2.normalize tmin tmax sqrt ⟨0, 0⟩ = ⟨0, 0⟩ := by
+  simp [Gen.C08.V2.normalize, V2_length_eq tmin tmax hsqrt, sqrt_zero hsqrt]
 
 /-- `normalized()`: the vector of quotients `aᵢ / ‖a‖` (for `a = 0` every quotient is `0 / 0 = 0` in a field, and the
 C++ returns the zero vector there, see `V2_normalized_zero`) -/
-theorem V2_normalized_eq (tmin : α) (hsqrt : ∀ x, 0 ≤ x → sqrt x * sqrt x = x ∧ 0 ≤ sqrt x) (a : V2 α) :
-    Gen.C08.V2.normalized tmin sqrt a = ⟨a.x / sqrt (dotSelf2 a), a.y / sqrt (dotSelf2 a)⟩ := by
+theorem V2_normalized_eq (tmin tmax : α) (hsqrt : ∀ x, 0 ≤ x → sqrt x * sqrt x = x ∧ 0 ≤ sqrt x) (a : V2 α) :
+    Gen.C08.V2.normalized tmin tmax sqrt a = ⟨a.x / sqrt (dotSelf2 a), a.y / sqrt (dotSelf2 a)⟩ := by
   by_cases ha : a = ⟨0, 0⟩
-  · subst ha; simp [Gen.C08.V2.normalized, V2_length_eq tmin hsqrt, dotSelf2, sqrt_zero hsqrt]
+  · subst ha; simp [Gen.C08.V2.normalized, V2_length_eq tmin tmax hsqrt, dotSelf2, sqrt_zero hsqrt]
   · have hn := (norm2_pos hsqrt ha).ne'
     obtain ⟨x, y⟩ := a
     simp only [dotSelf2] at hn
-    simp only [Gen.C08.V2.normalized, V2_length_eq tmin hsqrt, dotSelf2, if_neg hn]
+    simp only [Gen.C08.V2.normalized, V2_length_eq tmin tmax hsqrt, dotSelf2, if_neg hn]
     first | done | (congr 1 <;> ring)
 
-theorem V2_normalized_of_ne_zero (tmin : α) (hsqrt : ∀ x, 0 ≤ x → sqrt x * sqrt x = x ∧ 0 ≤ sqrt x) (a : V2 α) (ha : a ≠ ⟨0, 0⟩) :
-    IsNormalized2 sqrt a (Gen.C08.V2.normalized tmin sqrt a) := by
-  rw [V2_normalized_eq tmin hsqrt a]; exact isNormalized2_div hsqrt ha
+theorem V2_normalized_of_ne_zero (tmin tmax : α) (hsqrt : ∀ x, 0 ≤ x → sqrt x * sqrt x = x ∧ 0 ≤ sqrt x) (a : V2 α) (ha : a ≠ ⟨0, 0⟩) :
+    IsNormalized2 sqrt a (Gen.C08.V2.normalized tmin tmax sqrt a) := by
+  rw [V2_normalized_eq tmin tmax hsqrt a]; exact isNormalized2_div hsqrt ha
 
-theorem V2_normalized_zero (tmin : α) (hsqrt : ∀ x, 0 ≤ x → sqrt x * sqrt x = x ∧ 0 ≤ sqrt x) :
-    Gen.C08.V2.normalized tmin sqrt ⟨0, 0⟩ = ⟨0, 0⟩ := by
-  simp [Gen.C08.V2.normalized, V2_length_eq tmin hsqrt, sqrt_zero hsqrt]
+theorem V2_normalized_zero (tmin tmax : α) (hsqrt : ∀ x, 0 ≤ x → sqrt x * sqrt x = x ∧ 0 ≤ sqrt x) :
+    Gen.C08.V2.normalized tmin tmax sqrt ⟨0, 0⟩ = ⟨0, 0⟩ := by
+  simp [Gen.C08.V2.normalized, V2_length_eq tmin tmax hsqrt, sqrt_zero hsqrt]
 
 /-- `normalizeNonNull()` (precondition: `a ≠ 0`; no test in the C++) -/
-theorem V2_normalizeNonNull_of_ne_zero (tmin : α) (hsqrt : ∀ x, 0 ≤ x → sqrt x * sqrt x = x ∧ 0 ≤ sqrt x) (a : V2 α) (ha : a ≠ ⟨0, 0⟩) :
-    IsNormalized2 sqrt a (Gen.C08.V2.normalizeNonNull tmin sqrt a) := by
-  have h : Gen.C08.V2.normalizeNonNull tmin sqrt a = ⟨a.x / sqrt (dotSelf2 a), a.y / sqrt (dotSelf2 a)⟩ := by
+theorem V2_normalizeNonNull_of_ne_zero (tmin tmax : α) (hsqrt : ∀ x, 0 ≤ x → sqrt x * sqrt x = x ∧ 0 ≤ sqrt x) (a : V2 α) (ha : a ≠ ⟨0, 0⟩) :
+    IsNormalized2 sqrt a (Gen.C08.V2.normalizeNonNull tmin tmax sqrt a) := by
+  have h : Gen.C08.V2.normalizeNonNull tmin tmax sqrt a = ⟨a.x / sqrt (dotSelf2 a), a.y / sqrt (dotSelf2 a)⟩ := by
     obtain ⟨x, y⟩ := a
-    simp only [Gen.C08.V2.normalizeNonNull, V2_length_eq tmin hsqrt, dotSelf2]
+    simp only [Gen.C08.V2.normalizeNonNull, V2_length_eq tmin tmax hsqrt, dotSelf2]
     first | done | (congr 1 <;> ring)
   rw [h]; exact isNormalized2_div hsqrt ha
 
 /-- `normalizedNonNull()` (precondition: `a ≠ 0`; no test in the C++) -/
-theorem V2_normalizedNonNull_of_ne_zero (tmin : α) (hsqrt : ∀ x, 0 ≤ x → sqrt x * sqrt x = x ∧ 0 ≤ sqrt x) (a : V2 α) (ha : a ≠ ⟨0, 0⟩) :
-    IsNormalized2 sqrt a (Gen.C08.V2.normalizedNonNull tmin sqrt a) := by
-  have h : Gen.C08.V2.normalizedNonNull tmin sqrt a = ⟨a.x / sqrt (dotSelf2 a), a.y / sqrt (dotSelf2 a)⟩ := by
+theorem V2_normalizedNonNull_of_ne_zero (tmin tmax : α) (hsqrt : ∀ x, 0 ≤ x → sqrt x * sqrt x = x ∧ 0 ≤ sqrt x) (a : V2 α) (ha : a ≠ ⟨0, 0⟩) :
+    IsNormalized2 sqrt a (Gen.C08.V2.normalizedNonNull tmin tmax sqrt a) := by
+  have h : Gen.C08.V2.normalizedNonNull tmin tmax sqrt a = ⟨a.x / sqrt (dotSelf2 a), a.y / sqrt (dotSelf2 a)⟩ := by
     obtain ⟨x, y⟩ := a
-    simp only [Gen.C08.V2.normalizedNonNull, V2_length_eq tmin hsqrt, dotSelf2]
+    simp only [Gen.C08.V2.normalizedNonNull, V2_length_eq tmin tmax hsqrt, dotSelf2]
     first | done | (congr 1 <;> ring)
   rw [h]; exact isNormalized2_div hsqrt ha
 
 /-- `normalizeExc()` on a non-zero vector: no exception, same result as `normalize()` -/
-theorem V2_normalizeExc_of_ne_zero (tmin : α) (hsqrt : ∀ x, 0 ≤ x → sqrt x * sqrt x = x ∧ 0 ≤ sqrt x) (a : V2 α) (ha : a ≠ ⟨0, 0⟩) :
-    Gen.C08.V2.normalizeExc tmin sqrt a = .ok (Gen.C08.V2.normalize tmin sqrt a) ∧ IsNormalized2 sqrt a (Gen.C08.V2.normalize tmin sqrt a) := by
-  refine ⟨?_, V2_normalize_of_ne_zero tmin hsqrt a ha⟩
-  have hl : Gen.V2.length tmin sqrt a ≠ 0 := fun h => ha ((V2_length_eq_zero_iff tmin hsqrt a).1 h)
+theorem V2_normalizeExc_of_ne_zero (tmin tmax : α) (hsqrt : ∀ x, 0 ≤ x → sqrt x * sqrt x = x ∧ 0 ≤ sqrt x) (a : V2 α) (ha : a ≠ ⟨0, 0⟩) :
+    Gen.C08.V2.normalizeExc tmin tmax sqrt a = .ok (Gen.C08.V2.normalize tmin tmax sqrt a) ∧ IsNormalized2 sqrt a (Gen.C08.V2.normalize tmin tmax sqrt a) := by
+  refine ⟨?_, V2_normalize_of_ne_zero tmin tmax hsqrt a ha⟩
+  have hl : Gen.V2.length tmin tmax sqrt a ≠ 0 := fun h => ha ((V2_length_eq_zero_iff tmin tmax hsqrt a).1 h)
   obtain ⟨x, y⟩ := a
   simp only [Gen.C08.V2.normalizeExc, Gen.C08.V2.normalize, if_neg hl]
   first | done | (congr 2 <;> ring)
 
 /-- `normalizeExc()` throws exactly when `length()` is 0, i.e. exactly for the zero vector, and what it throws is
 `std::domain_error` -/
-theorem V2_normalizeExc_throws_iff (tmin : α) (hsqrt : ∀ x, 0 ≤ x → sqrt x * sqrt x = x ∧ 0 ≤ sqrt x) (a : V2 α) :
-    ((∃ e, Gen.C08.V2.normalizeExc tmin sqrt a = .error e) ↔ Gen.V2.length tmin sqrt a = 0) ∧
-    ((∃ e, Gen.C08.V2.normalizeExc tmin sqrt a = .error e) ↔ a = ⟨0, 0⟩) ∧
-    (∀ e, Gen.C08.V2.normalizeExc tmin sqrt a = .error e → e = Exc.domainError) := by
-  have key : ∀ b : V2 α, ((∃ e, Gen.C08.V2.normalizeExc tmin sqrt b = .error e) ↔ Gen.V2.length tmin sqrt b = 0) ∧
-      (∀ e, Gen.C08.V2.normalizeExc tmin sqrt b = .error e → e = Exc.domainError) := by
+theorem V2_normalizeExc_throws_iff (tmin tmax : α) (hsqrt : ∀ x, 0 ≤ x → sqrt x * sqrt x = x ∧ 0 ≤ sqrt x) (a : V2 α) :
+    ((∃ e, Gen.C08.V2.normalizeExc tmin tmax sqrt a = .error e) ↔ Gen.V2.length tmin tmax sqrt a = 0) ∧
+    ((∃ e, Gen.C08.V2.normalizeExc tmin tmax sqrt a = .error e) ↔ a = ⟨0, 0⟩) ∧
+    (∀ e, Gen.C08.V2.normalizeExc tmin tmax sqrt a = .error e → e = Exc.domainError) := by
+  have key : ∀ b : V2 α, ((∃ e, Gen.C08.V2.normalizeExc tmin tmax sqrt b = .error e) ↔ Gen.V2.length tmin tmax sqrt b = 0) ∧
+      (∀ e, Gen.C08.V2.normalizeExc tmin tmax sqrt b = .error e → e = Exc.domainError) := by
     intro b
     obtain ⟨x, y⟩ := b
     simp only [Gen.C08.V2.normalizeExc]
     split_ifs with h
     · exact ⟨⟨fun _ => h, fun _ => ⟨_, rfl⟩⟩, fun e he => (by cases he; rfl)⟩
     · exact ⟨⟨fun ⟨e, he⟩ => (by cases he), fun h' => absurd h' h⟩, fun e he => (by cases he)⟩
-  exact ⟨(key a).1, (key a).1.trans (V2_length_eq_zero_iff tmin hsqrt a), (key a).2⟩
+  exact ⟨(key a).1, (key a).1.trans (V2_length_eq_zero_iff tmin tmax hsqrt a), (key a).2⟩
 
-theorem V2_normalizeExc_zero (tmin : α) (hsqrt : ∀ x, 0 ≤ x → sqrt x * sqrt x = x ∧ 0 ≤ sqrt x) :
-    Gen.C08.V2.normalizeExc tmin sqrt ⟨0, 0⟩ = .error Exc.domainError := by
-  simp [Gen.C08.V2.normalizeExc, V2_length_eq tmin hsqrt, sqrt_zero hsqrt]
+theorem V2_normalizeExc_zero (tmin tmax : α) (hsqrt : ∀ x, 0 ≤ x → sqrt x * sqrt x = x ∧ 0 ≤ sqrt x) :
+    Gen.C08.V2.normalizeExc tmin tmax sqrt ⟨0, 0⟩ = .error Exc.domainError := by
+  simp [Gen.C08.V2.normalizeExc, V2_length_eq tmin tmax hsqrt, sqrt_zero hsqrt]
 
 /-- `normalizedExc()` on a non-zero vector: no exception, same result as `normalized()` -/
-theorem V2_normalizedExc_of_ne_zero (tmin : α) (hsqrt : ∀ x, 0 ≤ x → sqrt x * sqrt x = x ∧ 0 ≤ sqrt x) (a : V2 α) (ha : a ≠ ⟨0, 0⟩) :
-    Gen.C08.V2.normalizedExc tmin sqrt a = .ok (Gen.C08.V2.normalized tmin sqrt a) ∧ IsNormalized2 sqrt a (Gen.C08.V2.normalized tmin sqrt a) := by
-  refine ⟨?_, V2_normalized_of_ne_zero tmin hsqrt a ha⟩
-  have hl : Gen.V2.length tmin sqrt a ≠ 0 := fun h => ha ((V2_length_eq_zero_iff tmin hsqrt a).1 h)
+theorem V2_normalizedExc_of_ne_zero (tmin tmax : α) (hsqrt : ∀ x, 0 ≤ x → sqrt x * sqrt x = x ∧ 0 ≤ sqrt x) (a : V2 α) (ha : a ≠ ⟨0, 0⟩) :
+    Gen.C08.V2.normalizedExc tmin tmax sqrt a = .ok (Gen.C08.V2.normalized tmin tmax sqrt a) ∧ IsNormalized2 sqrt a (Gen.C08.V2.normalized tmin tmax sqrt a) := by
+  refine ⟨?_, V2_normalized_of_ne_zero tmin tmax hsqrt a ha⟩
+  have hl : Gen.V2.length tmin tmax sqrt a ≠ 0 := fun h => ha ((V2_length_eq_zero_iff tmin tmax hsqrt a).1 h)
   obtain ⟨x, y⟩ := a
   simp only [Gen.C08.V2.normalizedExc, Gen.C08.V2.normalized, if_neg hl]
   first | done | (congr 2 <;> ring)
 
 /-- `normalizedExc()` throws exactly when `length()` is 0, i.e. exactly for the zero vector, and what it throws is
 `std::domain_error` -/
-theorem V2_normalizedExc_throws_iff (tmin : α) (hsqrt : ∀ x, 0 ≤ x → sqrt x * sqrt x = x ∧ 0 ≤ sqrt x) (a : V2 α) :
-    ((∃ e, Gen.C08.V2.normalizedExc tmin sqrt a = .error e) ↔ Gen.V2.length tmin sqrt a = 0) ∧
-    ((∃ e, Gen.C08.V2.normalizedExc tmin sqrt a = .error e) ↔ a = ⟨0, 0⟩) ∧
-    (∀ e, Gen.C08.V2.normalizedExc tmin sqrt a = .error e → e = Exc.domainError) := by
-  have key : ∀ b : V2 α, ((∃ e, Gen.C08.V2.normalizedExc tmin sqrt b = .error e) ↔ Gen.V2.length tmin sqrt b = 0) ∧
-      (∀ e, Gen.C08.V2.normalizedExc tmin sqrt b = .error e → e = Exc.domainError) := by
+theorem V2_normalizedExc_throws_iff (tmin tmax : α) (hsqrt : ∀ x, 0 ≤ x → sqrt x * sqrt x = x ∧ 0 ≤ sqrt x) (a : V2 α) :
+    ((∃ e, Gen.C08.V2.normalizedExc tmin tmax sqrt a = .error e) ↔ Gen.V2.length tmin tmax sqrt a = 0) ∧
+    ((∃ e, Gen.C08.V2.normalizedExc tmin tmax sqrt a = .error e) ↔ a = ⟨0, 0⟩) ∧
+    (∀ e, Gen.C08.V2.normalizedExc tmin tmax sqrt a = .error e → e = Exc.domainError) := by
+  have key : ∀ b : V2 α, ((∃ e, Gen.C08.V2.normalizedExc tmin tmax sqrt b = .error e) ↔ Gen.V2.length tmin tmax sqrt b = 0) ∧
+      (∀ e, Gen.C08.V2.normalizedExc tmin tmax sqrt b = .error e → e = Exc.domainError) := by
     intro b
     obtain ⟨x, y⟩ := b
     simp only [Gen.C08.V2.normalizedExc]
     split_ifs with h
     · exact ⟨⟨fun _ => h, fun _ => ⟨_, rfl⟩⟩, fun e he => (by cases he; rfl)⟩
     · exact ⟨⟨fun ⟨e, he⟩ => (by cases he), fun h' => absurd h' h⟩, fun e he => (by cases he)⟩
-  exact ⟨(key a).1, (key a).1.trans (V2_length_eq_zero_iff tmin hsqrt a), (key a).2⟩
+  exact ⟨(key a).1, (key a).1.trans (V2_length_eq_zero_iff tmin tmax hsqrt a), (key a).2⟩
 
-theorem V2_normalizedExc_zero (tmin : α) (hsqrt : ∀ x, 0 ≤ x → sqrt x * sqrt x = x ∧ 0 ≤ sqrt x) :
-    Gen.C08.V2.normalizedExc tmin sqrt ⟨0, 0⟩ = .error Exc.domainError := by
-  simp [Gen.C08.V2.normalizedExc, V2_length_eq tmin hsqrt, sqrt_zero hsqrt]
+theorem V2_normalizedExc_zero (tmin tmax : α) (hsqrt : ∀ x, 0 ≤ x → sqrt x * sqrt x = x ∧ 0 ≤ sqrt x) :
+    Gen.C08.V2.normalizedExc tmin tmax sqrt ⟨0, 0⟩ = .error Exc.domainError := by
+  simp [Gen.C08.V2.normalizedExc, V2_length_eq tmin tmax hsqrt, sqrt_zero hsqrt]
 
 /-- the normalised vector has `length()` exactly 1 (exact arithmetic) -/
-theorem V2_normalized_length_one (tmin : α) (hsqrt : ∀ x, 0 ≤ x → sqrt x * sqrt x = x ∧ 0 ≤ sqrt x) (a : V2 α) (ha : a ≠ ⟨0, 0⟩) :
-    Gen.V2.length tmin sqrt (Gen.C08.V2.normalized tmin sqrt a) = 1 := by
-  have h := (V2_normalized_of_ne_zero tmin hsqrt a ha).unit
-  rw [V2_length_eq tmin hsqrt]
+theorem V2_normalized_length_one (tmin tmax : α) (hsqrt : ∀ x, 0 ≤ x → sqrt x * sqrt x = x ∧ 0 ≤ sqrt x) (a : V2 α) (ha : a ≠ ⟨0, 0⟩) :
+    Gen.V2.length tmin tmax sqrt (Gen.C08.V2.normalized tmin tmax sqrt a) = 1 := by
+  have h := (V2_normalized_of_ne_zero tmin tmax hsqrt a ha).unit
+  rw [V2_length_eq tmin tmax hsqrt]
   simp only [dotSelf2] at h
   rw [h]; exact sqrt_one hsqrt
 
 /-- all six forms agree on a non-zero vector (the in-place and the const copies have the same shape) -/
-theorem V2_normalize_forms_agree (tmin : α) (hsqrt : ∀ x, 0 ≤ x → sqrt x * sqrt x = x ∧ 0 ≤ sqrt x) (a : V2 α) (ha : a ≠ ⟨0, 0⟩) :
-    Gen.C08.V2.normalize tmin sqrt a = Gen.C08.V2.normalized tmin sqrt a ∧
-    Gen.C08.V2.normalizeNonNull tmin sqrt a = Gen.C08.V2.normalized tmin sqrt a ∧
-    Gen.C08.V2.normalizedNonNull tmin sqrt a = Gen.C08.V2.normalized tmin sqrt a ∧
-    Gen.C08.V2.normalizeExc tmin sqrt a = .ok (Gen.C08.V2.normalized tmin sqrt a) ∧
-    Gen.C08.V2.normalizedExc tmin sqrt a = .ok (Gen.C08.V2.normalized tmin sqrt a) := by
-  have e1 := (V2_normalize_of_ne_zero tmin hsqrt a ha).eq
-  have e2 := (V2_normalized_of_ne_zero tmin hsqrt a ha).eq
-  have e3 := (V2_normalizeNonNull_of_ne_zero tmin hsqrt a ha).eq
-  have e4 := (V2_normalizedNonNull_of_ne_zero tmin hsqrt a ha).eq
-  refine ⟨e1.trans e2.symm, e3.trans e2.symm, e4.trans e2.symm, ?_, (V2_normalizedExc_of_ne_zero tmin hsqrt a ha).1⟩
-  rw [(V2_normalizeExc_of_ne_zero tmin hsqrt a ha).1, e1.trans e2.symm]
+theorem V2_normalize_forms_agree (tmin tmax : α) (hsqrt : ∀ x, 0 ≤ x → sqrt x * sqrt x = x ∧ 0 ≤ sqrt x) (a : V2 α) (ha : a ≠ ⟨0, 0⟩) :
+    Gen.C08.V2.normalize tmin tmax sqrt a = Gen.C08.V2.normalized tmin tmax sqrt a ∧
+    Gen.C08.V2.normalizeNonNull tmin tmax sqrt a = Gen.C08.V2.normalized tmin tmax sqrt a ∧
+    Gen.C08.V2.normalizedNonNull tmin tmax sqrt a = Gen.C08.V2.normalized tmin tmax sqrt a ∧
+    Gen.C08.V2.normalizeExc tmin tmax sqrt a = .ok (Gen.C08.V2.normalized tmin tmax sqrt a) ∧
+    Gen.C08.V2.normalizedExc tmin tmax sqrt a = .ok (Gen.C08.V2.normalized tmin tmax sqrt a) := by
+  have e1 := (V2_normalize_of_ne_zero tmin tmax hsqrt a ha).eq
+  have e2 := (V2_normalized_of_ne_zero tmin tmax hsqrt a ha).eq
+  have e3 := (V2_normalizeNonNull_of_ne_zero tmin tmax hsqrt a ha).eq
+  have e4 := (V2_normalizedNonNull_of_ne_zero tmin tmax hsqrt a ha).eq
+  refine ⟨e1.trans e2.symm, e3.trans e2.symm, e4.trans e2.symm, ?_, (V2_normalizedExc_of_ne_zero tmin tmax hsqrt a ha).1⟩
+  rw [(V2_normalizeExc_of_ne_zero tmin tmax hsqrt a ha).1, e1.trans e2.symm]
 
 /-! ## Vec3 -/
 
@@ -213,17 +213,17 @@ theorem V3_dot_self (a : V3 α) : Gen.C08.V3.dot a a = dotSelf3 a := by
 
 /-- `Vec3::length()` — the real body with `lengthTiny` inlined — is `sqrt (v·v)` for every vector and every
 threshold parameter `tmin`, i.e. on BOTH sides of `dot < 2*tmin`. -/
-theorem V3_length_spec (tmin : α) (hsqrt : ∀ x, 0 ≤ x → sqrt x * sqrt x = x ∧ 0 ≤ sqrt x) (a : V3 α) :
-    Gen.V3.length tmin sqrt a = sqrt (Gen.C08.V3.dot a a) := by
-  rw [V3_length_eq tmin hsqrt a, V3_dot_self]; rfl
+theorem V3_length_spec (tmin tmax : α) (hsqrt : ∀ x, 0 ≤ x → sqrt x * sqrt x = x ∧ 0 ≤ sqrt x) (a : V3 α) :
+    Gen.V3.length tmin tmax sqrt a = sqrt (Gen.C08.V3.dot a a) := by
+  rw [V3_length_eq tmin tmax hsqrt a, V3_dot_self]; rfl
 
-theorem V3_length_nonneg (tmin : α) (hsqrt : ∀ x, 0 ≤ x → sqrt x * sqrt x = x ∧ 0 ≤ sqrt x) (a : V3 α) : 0 ≤ Gen.V3.length tmin sqrt a :=
-  (V3_length_sq tmin hsqrt a).2
+theorem V3_length_nonneg (tmin tmax : α) (hsqrt : ∀ x, 0 ≤ x → sqrt x * sqrt x = x ∧ 0 ≤ sqrt x) (a : V3 α) : 0 ≤ Gen.V3.length tmin tmax sqrt a :=
+  (V3_length_sq tmin tmax hsqrt a).2
 
 /-- `length()` is zero only for the zero vector -/
-theorem V3_length_eq_zero_iff (tmin : α) (hsqrt : ∀ x, 0 ≤ x → sqrt x * sqrt x = x ∧ 0 ≤ sqrt x) (a : V3 α) :
-    Gen.V3.length tmin sqrt a = 0 ↔ a = ⟨0, 0, 0⟩ := by
-  rw [V3_length_eq tmin hsqrt a]
+theorem V3_length_eq_zero_iff (tmin tmax : α) (hsqrt : ∀ x, 0 ≤ x → sqrt x * sqrt x = x ∧ 0 ≤ sqrt x) (a : V3 α) :
+    Gen.V3.length tmin tmax sqrt a = 0 ↔ a = ⟨0, 0, 0⟩ := by
+  rw [V3_length_eq tmin tmax hsqrt a]
   exact (sqrt_eq_zero_iff hsqrt (dotSelf3_nonneg a)).trans (dotSelf3_eq_zero a)
 
 /-- `length2()` is the dot product of the vector with itself -/
@@ -234,141 +234,141 @@ theorem V3_length2 (a : V3 α) : Gen.C08.V3.length2 a = Gen.C08.V3.dot a a := by
 
 /-- `normalize()`: the vector of quotients `aᵢ / ‖a‖` (for `a = 0` every quotient is `0 / 0 = 0` in a field, and the
 C++ returns the zero vector there, see `V3_normalize_zero`) -/
-theorem V3_normalize_eq (tmin : α) (hsqrt : ∀ x, 0 ≤ x → sqrt x * sqrt x = x ∧ 0 ≤ sqrt x) (a : V3 α) :
-    Gen.C08.V3.normalize tmin sqrt a = ⟨a.x / sqrt (dotSelf3 a), a.y / sqrt (dotSelf3 a), a.z / sqrt (dotSelf3 a)⟩ := by
+theorem V3_normalize_eq (tmin tmax : α) (hsqrt : ∀ x, 0 ≤ x → sqrt x * sqrt x = x ∧ 0 ≤ sqrt x) (a : V3 α) :
+    Gen.C08.V3.normalize tmin tmax sqrt a = ⟨a.x / sqrt (dotSelf3 a), a.y / sqrt (dotSelf3 a), a.z / sqrt (dotSelf3 a)⟩ := by
   by_cases ha : a = ⟨0, 0, 0⟩
-  · subst ha; simp [Gen.C08.V3.normalize, V3_length_eq tmin hsqrt, dotSelf3, sqrt_zero hsqrt]
+  · subst ha; simp [Gen.C08.V3.normalize, V3_length_eq tmin tmax hsqrt, dotSelf3, sqrt_zero hsqrt]
   · have hn := (norm3_pos hsqrt ha).ne'
     obtain ⟨x, y, z⟩ := a
     simp only [dotSelf3] at hn
-    simp only [Gen.C08.V3.normalize, V3_length_eq tmin hsqrt, dotSelf3, if_neg hn]
+    simp only [Gen.C08.V3.normalize, V3_length_eq tmin tmax hsqrt, dotSelf3, if_neg hn]
     first | done | (congr 1 <;> ring)
 
-theorem V3_normalize_of_ne_zero (tmin : α) (hsqrt : ∀ x, 0 ≤ x → sqrt x * sqrt x = x ∧ 0 ≤ sqrt x) (a : V3 α) (ha : a ≠ ⟨0, 0, 0⟩) :
-    IsNormalized3 sqrt a (Gen.C08.V3.normalize tmin sqrt a) := by
-  rw [V3_normalize_eq tmin hsqrt a]; exact isNormalized3_div hsqrt ha
+theorem V3_normalize_of_ne_zero (tmin tmax : α) (hsqrt : ∀ x, 0 ≤ x → sqrt x * sqrt x = x ∧ 0 ≤ sqrt x) (a : V3 α) (ha : a ≠ ⟨0, 0, 0⟩) :
+    IsNormalized3 sqrt a (Gen.C08.V3.normalize tmin tmax sqrt a) := by
+  rw [V3_normalize_eq tmin tmax hsqrt a]; exact isNormalized3_div hsqrt ha
 
-theorem V3_normalize_zero (tmin : α) (hsqrt : ∀ x, 0 ≤ x → sqrt x * sqrt x = x ∧ 0 ≤ sqrt x) :
-    Gen.C08.V3.normalize tmin sqrt ⟨0, 0, 0⟩ = ⟨0, 0, 0⟩ := by
-  simp [Gen.C08.V3.normalize, V3_length_eq tmin hsqrt, sqrt_zero hsqrt]
+theorem V3_normalize_zero (tmin tmax : α) (hsqrt : ∀ x, 0 ≤ x → sqrt x * sqrt x = x ∧ 0 ≤ sqrt x) :
+    Gen.C08.V3.normalize tmin tmax sqrt ⟨0, 0, 0⟩ = ⟨0, 0, 0⟩ := by
+  simp [Gen.C08.V3.normalize, V3_length_eq tmin tmax hsqrt, sqrt_zero hsqrt]
 
 /-- `normalized()`: the vector of quotients `aᵢ / ‖a‖` (for `a = 0` every quotient is `0 / 0 = 0` in a field, and the
 C++ returns the zero vector there, see `V3_normalized_zero`) -/
-theorem V3_normalized_eq (tmin : α) (hsqrt : ∀ x, 0 ≤ x → sqrt x * sqrt x = x ∧ 0 ≤ sqrt x) (a : V3 α) :
-    Gen.C08.V3.normalized tmin sqrt a = ⟨a.x / sqrt (dotSelf3 a), a.y / sqrt (dotSelf3 a), a.z / sqrt (dotSelf3 a)⟩ := by
+theorem V3_normalized_eq (tmin tmax : α) (hsqrt : ∀ x, 0 ≤ x → sqrt x * sqrt x = x ∧ 0 ≤ sqrt x) (a : V3 α) :
+    Gen.C08.V3.normalized tmin tmax sqrt a = ⟨a.x / sqrt (dotSelf3 a), a.y / sqrt (dotSelf3 a), a.z / sqrt (dotSelf3 a)⟩ := by
   by_cases ha : a = ⟨0, 0, 0⟩
-  · subst ha; simp [Gen.C08.V3.normalized, V3_length_eq tmin hsqrt, dotSelf3, sqrt_zero hsqrt]
+  · subst ha; simp [Gen.C08.V3.normalized, V3_length_eq tmin tmax hsqrt, dotSelf3, sqrt_zero hsqrt]
   · have hn := (norm3_pos hsqrt ha).ne'
     obtain ⟨x, y, z⟩ := a
     simp only [dotSelf3] at hn
-    simp only [Gen.C08.V3.normalized, V3_length_eq tmin hsqrt, dotSelf3, if_neg hn]
+    simp only [Gen.C08.V3.normalized, V3_length_eq tmin tmax hsqrt, dotSelf3, if_neg hn]
     first | done | (congr 1 <;> ring)
 
-theorem V3_normalized_of_ne_zero (tmin : α) (hsqrt : ∀ x, 0 ≤ x → sqrt x * sqrt x = x ∧ 0 ≤ sqrt x) (a : V3 α) (ha : a ≠ ⟨0, 0, 0⟩) :
-    IsNormalized3 sqrt a (Gen.C08.V3.normalized tmin sqrt a) := by
-  rw [V3_normalized_eq tmin hsqrt a]; exact isNormalized3_div hsqrt ha
+theorem V3_normalized_of_ne_zero (tmin tmax : α) (hsqrt : ∀ x, 0 ≤ x → sqrt x * sqrt x = x ∧ 0 ≤ sqrt x) (a : V3 α) (ha : a ≠ ⟨0, 0, 0⟩) :
+    IsNormalized3 sqrt a (Gen.C08.V3.normalized tmin tmax sqrt a) := by
+  rw [V3_normalized_eq tmin tmax hsqrt a]; exact isNormalized3_div hsqrt ha
 
-theorem V3_normalized_zero (tmin : α) (hsqrt : ∀ x, 0 ≤ x → sqrt x * sqrt x = x ∧ 0 ≤ sqrt x) :
-    Gen.C08.V3.normalized tmin sqrt ⟨0, 0, 0⟩ = ⟨0, 0, 0⟩ := by
-  simp [Gen.C08.V3.normalized, V3_length_eq tmin hsqrt, sqrt_zero hsqrt]
+theorem V3_normalized_zero (tmin tmax : α) (hsqrt : ∀ x, 0 ≤ x → sqrt x * sqrt x = x ∧ 0 ≤ sqrt x) :
+    Gen.C08.V3.normalized tmin tmax sqrt ⟨0, 0, 0⟩ = ⟨0, 0, 0⟩ := by
+  simp [Gen.C08.V3.normalized, V3_length_eq tmin tmax hsqrt, sqrt_zero hsqrt]
 
 /-- `normalizeNonNull()` (precondition: `a ≠ 0`; no test in the C++) -/
-theorem V3_normalizeNonNull_of_ne_zero (tmin : α) (hsqrt : ∀ x, 0 ≤ x → sqrt x * sqrt x = x ∧ 0 ≤ sqrt x) (a : V3 α) (ha : a ≠ ⟨0, 0, 0⟩) :
-    IsNormalized3 sqrt a (Gen.C08.V3.normalizeNonNull tmin sqrt a) := by
-  have h : Gen.C08.V3.normalizeNonNull tmin sqrt a = ⟨a.x / sqrt (dotSelf3 a), a.y / sqrt (dotSelf3 a), a.z / sqrt (dotSelf3 a)⟩ := by
+theorem V3_normalizeNonNull_of_ne_zero (tmin tmax : α) (hsqrt : ∀ x, 0 ≤ x → sqrt x * sqrt x = x ∧ 0 ≤ sqrt x) (a : V3 α) (ha : a ≠ ⟨0, 0, 0⟩) :
+    IsNormalized3 sqrt a (Gen.C08.V3.normalizeNonNull tmin tmax sqrt a) := by
+  have h : Gen.C08.V3.normalizeNonNull tmin tmax sqrt a = ⟨a.x / sqrt (dotSelf3 a), a.y / sqrt (dotSelf3 a), a.z / sqrt (dotSelf3 a)⟩ := by
     obtain ⟨x, y, z⟩ := a
-    simp only [Gen.C08.V3.normalizeNonNull, V3_length_eq tmin hsqrt, dotSelf3]
+    simp only [Gen.C08.V3.normalizeNonNull, V3_length_eq tmin tmax hsqrt, dotSelf3]
     first | done | (congr 1 <;> ring)
   rw [h]; exact isNormalized3_div hsqrt ha
 
 /-- `normalizedNonNull()` (precondition: `a ≠ 0`; no test in the C++) -/
-theorem V3_normalizedNonNull_of_ne_zero (tmin : α) (hsqrt : ∀ x, 0 ≤ x → sqrt x * sqrt x = x ∧ 0 ≤ sqrt x) (a : V3 α) (ha : a ≠ ⟨0, 0, 0⟩) :
-    IsNormalized3 sqrt a (Gen.C08.V3.normalizedNonNull tmin sqrt a) := by
-  have h : Gen.C08.V3.normalizedNonNull tmin sqrt a = ⟨a.x / sqrt (dotSelf3 a), a.y / sqrt (dotSelf3 a), a.z / sqrt (dotSelf3 a)⟩ := by
+theorem V3_normalizedNonNull_of_ne_zero (tmin tmax : α) (hsqrt : ∀ x, 0 ≤ x → sqrt x * sqrt x = x ∧ 0 ≤ sqrt x) (a : V3 α) (ha : a ≠ ⟨0, 0, 0⟩) :
+    IsNormalized3 sqrt a (Gen.C08.V3.normalizedNonNull tmin tmax sqrt a) := by
+  have h : Gen.C08.V3.normalizedNonNull tmin tmax sqrt a = ⟨a.x / sqrt (dotSelf3 a), a.y / sqrt (dotSelf3 a), a.z / sqrt (dotSelf3 a)⟩ := by
     obtain ⟨x, y, z⟩ := a
-    simp only [Gen.C08.V3.normalizedNonNull, V3_length_eq tmin hsqrt, dotSelf3]
+    simp only [Gen.C08.V3.normalizedNonNull, V3_length_eq tmin tmax hsqrt, dotSelf3]
     first | done | (congr 1 <;> ring)
   rw [h]; exact isNormalized3_div hsqrt ha
 
 /-- `normalizeExc()` on a non-zero vector: no exception, same result as `normalize()` -/
-theorem V3_normalizeExc_of_ne_zero (tmin : α) (hsqrt : ∀ x, 0 ≤ x → sqrt x * sqrt x = x ∧ 0 ≤ sqrt x) (a : V3 α) (ha : a ≠ ⟨0, 0, 0⟩) :
-    Gen.C08.V3.normalizeExc tmin sqrt a = .ok (Gen.C08.V3.normalize tmin sqrt a) ∧ IsNormalized3 sqrt a (Gen.C08.V3.normalize tmin sqrt a) := by
-  refine ⟨?_, V3_normalize_of_ne_zero tmin hsqrt a ha⟩
-  have hl : Gen.V3.length tmin sqrt a ≠ 0 := fun h => ha ((V3_length_eq_zero_iff tmin hsqrt a).1 h)
+theorem V3_normalizeExc_of_ne_zero (tmin tmax : α) (hsqrt : ∀ x, 0 ≤ x → sqrt x * sqrt x = x ∧ 0 ≤ sqrt x) (a : V3 α) (ha : a ≠ ⟨0, 0, 0⟩) :
+    Gen.C08.V3.normalizeExc tmin tmax sqrt a = .ok (Gen.C08.V3.normalize tmin tmax sqrt a) ∧ IsNormalized3 sqrt a (Gen.C08.V3.normalize tmin tmax sqrt a) := by
+  refine ⟨?_, V3_normalize_of_ne_zero tmin tmax hsqrt a ha⟩
+  have hl : Gen.V3.length tmin tmax sqrt a ≠ 0 := fun h => ha ((V3_length_eq_zero_iff tmin tmax hsqrt a).1 h)
   obtain ⟨x, y, z⟩ := a
   simp only [Gen.C08.V3.normalizeExc, Gen.C08.V3.normalize, if_neg hl]
   first | done | (congr 2 <;> ring)
 
 /-- `normalizeExc()` throws exactly when `length()` is 0, i.e. exactly for the zero vector, and what it throws is
 `std::domain_error` -/
-theorem V3_normalizeExc_throws_iff (tmin : α) (hsqrt : ∀ x, 0 ≤ x → sqrt x * sqrt x = x ∧ 0 ≤ sqrt x) (a : V3 α) :
-    ((∃ e, Gen.C08.V3.normalizeExc tmin sqrt a = .error e) ↔ Gen.V3.length tmin sqrt a = 0) ∧
-    ((∃ e, Gen.C08.V3.normalizeExc tmin sqrt a = .error e) ↔ a = ⟨0, 0, 0⟩) ∧
-    (∀ e, Gen.C08.V3.normalizeExc tmin sqrt a = .error e → e = Exc.domainError) := by
-  have key : ∀ b : V3 α, ((∃ e, Gen.C08.V3.normalizeExc tmin sqrt b = .error e) ↔ Gen.V3.length tmin sqrt b = 0) ∧
-      (∀ e, Gen.C08.V3.normalizeExc tmin sqrt b = .error e → e = Exc.domainError) := by
+theorem V3_normalizeExc_throws_iff (tmin tmax : α) (hsqrt : ∀ x, 0 ≤ x → sqrt x * sqrt x = x ∧ 0 ≤ sqrt x) (a : V3 α) :
+    ((∃ e, Gen.C08.V3.normalizeExc tmin tmax sqrt a = .error e) ↔ Gen.V3.length tmin tmax sqrt a = 0) ∧
+    ((∃ e, Gen.C08.V3.normalizeExc tmin tmax sqrt a = .error e) ↔ a = ⟨0, 0, 0⟩) ∧
+    (∀ e, Gen.C08.V3.normalizeExc tmin tmax sqrt a = .error e → e = Exc.domainError) := by
+  have key : ∀ b : V3 α, ((∃ e, Gen.C08.V3.normalizeExc tmin tmax sqrt b = .error e) ↔ Gen.V3.length tmin tmax sqrt b = 0) ∧
+      (∀ e, Gen.C08.V3.normalizeExc tmin tmax sqrt b = .error e → e = Exc.domainError) := by
     intro b
     obtain ⟨x, y, z⟩ := b
     simp only [Gen.C08.V3.normalizeExc]
     split_ifs with h
     · exact ⟨⟨fun _ => h, fun _ => ⟨_, rfl⟩⟩, fun e he => (by cases he; rfl)⟩
     · exact ⟨⟨fun ⟨e, he⟩ => (by cases he), fun h' => absurd h' h⟩, fun e he => (by cases he)⟩
-  exact ⟨(key a).1, (key a).1.trans (V3_length_eq_zero_iff tmin hsqrt a), (key a).2⟩
+  exact ⟨(key a).1, (key a).1.trans (V3_length_eq_zero_iff tmin tmax hsqrt a), (key a).2⟩
 
-theorem V3_normalizeExc_zero (tmin : α) (hsqrt : ∀ x, 0 ≤ x → sqrt x * sqrt x = x ∧ 0 ≤ sqrt x) :
-    Gen.C08.V3.normalizeExc tmin sqrt ⟨0, 0, 0⟩ = .error Exc.domainError := by
-  simp [Gen.C08.V3.normalizeExc, V3_length_eq tmin hsqrt, sqrt_zero hsqrt]
+theorem V3_normalizeExc_zero (tmin tmax : α) (hsqrt : ∀ x, 0 ≤ x → sqrt x * sqrt x = x ∧ 0 ≤ sqrt x) :
+    Gen.C08.V3.normalizeExc tmin tmax sqrt ⟨0, 0, 0⟩ = .error Exc.domainError := by
+  simp [Gen.C08.V3.normalizeExc, V3_length_eq tmin tmax hsqrt, sqrt_zero hsqrt]
 
 /-- `normalizedExc()` on a non-zero vector: no exception, same result as `normalized()` -/
-theorem V3_normalizedExc_of_ne_zero (tmin : α) (hsqrt : ∀ x, 0 ≤ x → sqrt x * sqrt x = x ∧ 0 ≤ sqrt x) (a : V3 α) (ha : a ≠ ⟨0, 0, 0⟩) :
-    Gen.C08.V3.normalizedExc tmin sqrt a = .ok (Gen.C08.V3.normalized tmin sqrt a) ∧ IsNormalized3 sqrt a (Gen.C08.V3.normalized tmin sqrt a) := by
-  refine ⟨?_, V3_normalized_of_ne_zero tmin hsqrt a ha⟩
-  have hl : Gen.V3.length tmin sqrt a ≠ 0 := fun h => ha ((V3_length_eq_zero_iff tmin hsqrt a).1 h)
+theorem V3_normalizedExc_of_ne_zero (tmin tmax : α) (hsqrt : ∀ x, 0 ≤ x → sqrt x * sqrt x = x ∧ 0 ≤ sqrt x) (a : V3 α) (ha : a ≠ ⟨0, 0, 0⟩) :
+    Gen.C08.V3.normalizedExc tmin tmax sqrt a = .ok (Gen.C08.V3.normalized tmin tmax sqrt a) ∧ IsNormalized3 sqrt a (Gen.C08.V3.normalized tmin tmax sqrt a) := by
+  refine ⟨?_, V3_normalized_of_ne_zero tmin tmax hsqrt a ha⟩
+  have hl : Gen.V3.length tmin tmax sqrt a ≠ 0 := fun h => ha ((V3_length_eq_zero_iff tmin tmax hsqrt a).1 h)
   obtain ⟨x, y, z⟩ := a
   simp only [Gen.C08.V3.normalizedExc, Gen.C08.V3.normalized, if_neg hl]
   first | done | (congr 2 <;> ring)
 
 /-- `normalizedExc()` throws exactly when `length()` is 0, i.e. exactly for the zero vector, and what it throws is
 `std::domain_error` -/
-theorem V3_normalizedExc_throws_iff (tmin : α) (hsqrt : ∀ x, 0 ≤ x → sqrt x * sqrt x = x ∧ 0 ≤ sqrt x) (a : V3 α) :
-    ((∃ e, Gen.C08.V3.normalizedExc tmin sqrt a = .error e) ↔ Gen.V3.length tmin sqrt a = 0) ∧
-    ((∃ e, Gen.C08.V3.normalizedExc tmin sqrt a = .error e) ↔ a = ⟨0, 0, 0⟩) ∧
-    (∀ e, Gen.C08.V3.normalizedExc tmin sqrt a = .error e → e = Exc.domainError) := by
-  have key : ∀ b : V3 α, ((∃ e, Gen.C08.V3.normalizedExc tmin sqrt b = .error e) ↔ Gen.V3.length tmin sqrt b = 0) ∧
-      (∀ e, Gen.C08.V3.normalizedExc tmin sqrt b = .error e → e = Exc.domainError) := by
+theorem V3_normalizedExc_throws_iff (tmin tmax : α) (hsqrt : ∀ x, 0 ≤ x → sqrt x * sqrt x = x ∧ 0 ≤ sqrt x) (a : V3 α) :
+    ((∃ e, Gen.C08.V3.normalizedExc tmin tmax sqrt a = .error e) ↔ Gen.V3.length tmin tmax sqrt a = 0) ∧
+    ((∃ e, Gen.C08.V3.normalizedExc tmin tmax sqrt a = .error e) ↔ a = ⟨0, 0, 0⟩) ∧
+    (∀ e, Gen.C08.V3.normalizedExc tmin tmax sqrt a = .error e → e = Exc.domainError) := by
+  have key : ∀ b : V3 α, ((∃ e, Gen.C08.V3.normalizedExc tmin tmax sqrt b = .error e) ↔ Gen.V3.length tmin tmax sqrt b = 0) ∧
+      (∀ e, Gen.C08.V3.normalizedExc tmin tmax sqrt b = .error e → e = Exc.domainError) := by
     intro b
     obtain ⟨x, y, z⟩ := b
     simp only [Gen.C08.V3.normalizedExc]
     split_ifs with h
     · exact ⟨⟨fun _ => h, fun _ => ⟨_, rfl⟩⟩, fun e he => (by cases he; rfl)⟩
     · exact ⟨⟨fun ⟨e, he⟩ => (by cases he), fun h' => absurd h' h⟩, fun e he => (by cases he)⟩
-  exact ⟨(key a).1, (key a).1.trans (V3_length_eq_zero_iff tmin hsqrt a), (key a).2⟩
+  exact ⟨(key a).1, (key a).1.trans (V3_length_eq_zero_iff tmin tmax hsqrt a), (key a).2⟩
 
-theorem V3_normalizedExc_zero (tmin : α) (hsqrt : ∀ x, 0 ≤ x → sqrt x * sqrt x = x ∧ 0 ≤ sqrt x) :
-    Gen.C08.V3.normalizedExc tmin sqrt ⟨0, 0, 0⟩ = .error Exc.domainError := by
-  simp [Gen.C08.V3.normalizedExc, V3_length_eq tmin hsqrt, sqrt_zero hsqrt]
+theorem V3_normalizedExc_zero (tmin tmax : α) (hsqrt : ∀ x, 0 ≤ x → sqrt x * sqrt x = x ∧ 0 ≤ sqrt x) :
+    Gen.C08.V3.normalizedExc tmin tmax sqrt ⟨0, 0, 0⟩ = .error Exc.domainError := by
+  simp [Gen.C08.V3.normalizedExc, V3_length_eq tmin tmax hsqrt, sqrt_zero hsqrt]
 
 /-- the normalised vector has `length()` exactly 1 (exact arithmetic) -/
-theorem V3_normalized_length_one (tmin : α) (hsqrt : ∀ x, 0 ≤ x → sqrt x * sqrt x = x ∧ 0 ≤ sqrt x) (a : V3 α) (ha : a ≠ ⟨0, 0, 0⟩) :
-    Gen.V3.length tmin sqrt (Gen.C08.V3.normalized tmin sqrt a) = 1 := by
-  have h := (V3_normalized_of_ne_zero tmin hsqrt a ha).unit
-  rw [V3_length_eq tmin hsqrt]
+theorem V3_normalized_length_one (tmin tmax : α) (hsqrt : ∀ x, 0 ≤ x → sqrt x * sqrt x = x ∧ 0 ≤ sqrt x) (a : V3 α) (ha : a ≠ ⟨0, 0, 0⟩) :
+    Gen.V3.length tmin tmax sqrt (Gen.C08.V3.normalized tmin tmax sqrt a) = 1 := by
+  have h := (V3_normalized_of_ne_zero tmin tmax hsqrt a ha).unit
+  rw [V3_length_eq tmin tmax hsqrt]
   simp only [dotSelf3] at h
   rw [h]; exact sqrt_one hsqrt
 
 /-- all six forms agree on a non-zero vector (the in-place and the const copies have the same shape) -/
-theorem V3_normalize_forms_agree (tmin : α) (hsqrt : ∀ x, 0 ≤ x → sqrt x * sqrt x = x ∧ 0 ≤ sqrt x) (a : V3 α) (ha : a ≠ ⟨0, 0, 0⟩) :
-    Gen.C08.V3.normalize tmin sqrt a = Gen.C08.V3.normalized tmin sqrt a ∧
-    Gen.C08.V3.normalizeNonNull tmin sqrt a = Gen.C08.V3.normalized tmin sqrt a ∧
-    Gen.C08.V3.normalizedNonNull tmin sqrt a = Gen.C08.V3.normalized tmin sqrt a ∧
-    Gen.C08.V3.normalizeExc tmin sqrt a = .ok (Gen.C08.V3.normalized tmin sqrt a) ∧
-    Gen.C08.V3.normalizedExc tmin sqrt a = .ok (Gen.C08.V3.normalized tmin sqrt a) := by
-  have e1 := (V3_normalize_of_ne_zero tmin hsqrt a ha).eq
-  have e2 := (V3_normalized_of_ne_zero tmin hsqrt a ha).eq
-  have e3 := (V3_normalizeNonNull_of_ne_zero tmin hsqrt a ha).eq
-  have e4 := (V3_normalizedNonNull_of_ne_zero tmin hsqrt a ha).eq
-  refine ⟨e1.trans e2.symm, e3.trans e2.symm, e4.trans e2.symm, ?_, (V3_normalizedExc_of_ne_zero tmin hsqrt a ha).1⟩
-  rw [(V3_normalizeExc_of_ne_zero tmin hsqrt a ha).1, e1.trans e2.symm]
+theorem V3_normalize_forms_agree (tmin tmax : α) (hsqrt : ∀ x, 0 ≤ x → sqrt x * sqrt x = x ∧ 0 ≤ sqrt x) (a : V3 α) (ha : a ≠ ⟨0, 0, 0⟩) :
+    Gen.C08.V3.normalize tmin tmax sqrt a = Gen.C08.V3.normalized tmin tmax sqrt a ∧
+    Gen.C08.V3.normalizeNonNull tmin tmax sqrt a = Gen.C08.V3.normalized tmin tmax sqrt a ∧
+    Gen.C08.V3.normalizedNonNull tmin tmax sqrt a = Gen.C08.V3.normalized tmin tmax sqrt a ∧
+    Gen.C08.V3.normalizeExc tmin tmax sqrt a = .ok (Gen.C08.V3.normalized tmin tmax sqrt a) ∧
+    Gen.C08.V3.normalizedExc tmin tmax sqrt a = .ok (Gen.C08.V3.normalized tmin tmax sqrt a) := by
+  have e1 := (V3_normalize_of_ne_zero tmin tmax hsqrt a ha).eq
+  have e2 := (V3_normalized_of_ne_zero tmin tmax hsqrt a ha).eq
+  have e3 := (V3_normalizeNonNull_of_ne_zero tmin tmax hsqrt a ha).eq
+  have e4 := (V3_normalizedNonNull_of_ne_zero tmin tmax hsqrt a ha).eq
+  refine ⟨e1.trans e2.symm, e3.trans e2.symm, e4.trans e2.symm, ?_, (V3_normalizedExc_of_ne_zero tmin tmax hsqrt a ha).1⟩
+  rw [(V3_normalizeExc_of_ne_zero tmin tmax hsqrt a ha).1, e1.trans e2.symm]
 
 /-! ## Vec4 -/
 
@@ -379,17 +379,17 @@ theorem V4_dot_self (a : V4 α) : Gen.C08.V4.dot a a = dotSelf4 a := by
 
 /-- `Vec4::length()` — the real body with `lengthTiny` inlined — is `sqrt (v·v)` for every vector and every
 threshold parameter `tmin`, i.e. on BOTH sides of `dot < 2*tmin`. -/
-theorem V4_length_spec (tmin : α) (hsqrt : ∀ x, 0 ≤ x → sqrt x * sqrt x = x ∧ 0 ≤ sqrt x) (a : V4 α) :
-    Gen.V4.length tmin sqrt a = sqrt (Gen.C08.V4.dot a a) := by
-  rw [V4_length_eq tmin hsqrt a, V4_dot_self]; rfl
+theorem V4_length_spec (tmin tmax : α) (hsqrt : ∀ x, 0 ≤ x → sqrt x * sqrt x = x ∧ 0 ≤ sqrt x) (a : V4 α) :
+    Gen.V4.length tmin tmax sqrt a = sqrt (Gen.C08.V4.dot a a) := by
+  rw [V4_length_eq tmin tmax hsqrt a, V4_dot_self]; rfl
 
-theorem V4_length_nonneg (tmin : α) (hsqrt : ∀ x, 0 ≤ x → sqrt x * sqrt x = x ∧ 0 ≤ sqrt x) (a : V4 α) : 0 ≤ Gen.V4.length tmin sqrt a :=
-  (V4_length_sq tmin hsqrt a).2
+theorem V4_length_nonneg (tmin tmax : α) (hsqrt : ∀ x, 0 ≤ x → sqrt x * sqrt x = x ∧ 0 ≤ sqrt x) (a : V4 α) : 0 ≤ Gen.V4.length tmin tmax sqrt a :=
+  (V4_length_sq tmin tmax hsqrt a).2
 
 /-- `length()` is zero only for the zero vector -/
-theorem V4_length_eq_zero_iff (tmin : α) (hsqrt : ∀ x, 0 ≤ x → sqrt x * sqrt x = x ∧ 0 ≤ sqrt x) (a : V4 α) :
-    Gen.V4.length tmin sqrt a = 0 ↔ a = ⟨0, 0, 0, 0⟩ := by
-  rw [V4_length_eq tmin hsqrt a]
+theorem V4_length_eq_zero_iff (tmin tmax : α) (hsqrt : ∀ x, 0 ≤ x → sqrt x * sqrt x = x ∧ 0 ≤ sqrt x) (a : V4 α) :
+    Gen.V4.length tmin tmax sqrt a = 0 ↔ a = ⟨0, 0, 0, 0⟩ := by
+  rw [V4_length_eq tmin tmax hsqrt a]
   exact (sqrt_eq_zero_iff hsqrt (dotSelf4_nonneg a)).trans (dotSelf4_eq_zero a)
 
 /-- `length2()` is the dot product of the vector with itself -/
@@ -400,171 +400,171 @@ theorem V4_length2 (a : V4 α) : Gen.C08.V4.length2 a = Gen.C08.V4.dot a a := by
 
 /-- `normalize()`: the vector of quotients `aᵢ / ‖a‖` (for `a = 0` every quotient is `0 / 0 = 0` in a field, and the
 C++ returns the zero vector there, see `V4_normalize_zero`) -/
-theorem V4_normalize_eq (tmin : α) (hsqrt : ∀ x, 0 ≤ x → sqrt x * sqrt x = x ∧ 0 ≤ sqrt x) (a : V4 α) :
-    Gen.C08.V4.normalize tmin sqrt a = ⟨a.x / sqrt (dotSelf4 a), a.y / sqrt (dotSelf4 a), a.z / sqrt (dotSelf4 a), a.w / sqrt (dotSelf4 a)⟩ := by
+theorem V4_normalize_eq (tmin tmax : α) (hsqrt : ∀ x, 0 ≤ x → sqrt x * sqrt x = x ∧ 0 ≤ sqrt x) (a : V4 α) :
+    Gen.C08.V4.normalize tmin tmax sqrt a = ⟨a.x / sqrt (dotSelf4 a), a.y / sqrt (dotSelf4 a), a.z / sqrt (dotSelf4 a), a.w / sqrt (dotSelf4 a)⟩ := by
   by_cases ha : a = ⟨0, 0, 0, 0⟩
-  · subst ha; simp [Gen.C08.V4.normalize, V4_length_eq tmin hsqrt, dotSelf4, sqrt_zero hsqrt]
+  · subst ha; simp [Gen.C08.V4.normalize, V4_length_eq tmin tmax hsqrt, dotSelf4, sqrt_zero hsqrt]
   · have hn := (norm4_pos hsqrt ha).ne'
     obtain ⟨x, y, z, w⟩ := a
     simp only [dotSelf4] at hn
-    simp only [Gen.C08.V4.normalize, V4_length_eq tmin hsqrt, dotSelf4, if_neg hn]
+    simp only [Gen.C08.V4.normalize, V4_length_eq tmin tmax hsqrt, dotSelf4, if_neg hn]
     first | done | (congr 1 <;> ring)
 
-theorem V4_normalize_of_ne_zero (tmin : α) (hsqrt : ∀ x, 0 ≤ x → sqrt x * sqrt x = x ∧ 0 ≤ sqrt x) (a : V4 α) (ha : a ≠ ⟨0, 0, 0, 0⟩) :
-    IsNormalized4 sqrt a (Gen.C08.V4.normalize tmin sqrt a) := by
-  rw [V4_normalize_eq tmin hsqrt a]; exact isNormalized4_div hsqrt ha
+theorem V4_normalize_of_ne_zero (tmin tmax : α) (hsqrt : ∀ x, 0 ≤ x → sqrt x * sqrt x = x ∧ 0 ≤ sqrt x) (a : V4 α) (ha : a ≠ ⟨0, 0, 0, 0⟩) :
+    IsNormalized4 sqrt a (Gen.C08.V4.normalize tmin tmax sqrt a) := by
+  rw [V4_normalize_eq tmin tmax hsqrt a]; exact isNormalized4_div hsqrt ha
 
-theorem V4_normalize_zero (tmin : α) (hsqrt : ∀ x, 0 ≤ x → sqrt x * sqrt x = x ∧ 0 ≤ sqrt x) :
-    Gen.C08.V4.normalize tmin sqrt ⟨0, 0, 0, 0⟩ = ⟨0, 0, 0, 0⟩ := by
-  simp [Gen.C08.V4.normalize, V4_length_eq tmin hsqrt, sqrt_zero hsqrt]
+theorem V4_normalize_zero (tmin tmax : α) (hsqrt : ∀ x, 0 ≤ x → sqrt x * sqrt x = x ∧ 0 ≤ sqrt x) :
+    Gen.C08.V4.normalize tmin tmax sqrt ⟨0, 0, 0, 0⟩ = ⟨0, 0, 0, 0⟩ := by
+  simp [Gen.C08.V4.normalize, V4_length_eq tmin tmax hsqrt, sqrt_zero hsqrt]
 
 /-- `normalized()`: the vector of quotients `aᵢ / ‖a‖` (for `a = 0` every quotient is `0 / 0 = 0` in a field, and the
 C++ returns the zero vector there, see `V4_normalized_zero`) -/
-theorem V4_normalized_eq (tmin : α) (hsqrt : ∀ x, 0 ≤ x → sqrt x * sqrt x = x ∧ 0 ≤ sqrt x) (a : V4 α) :
-    Gen.C08.V4.normalized tmin sqrt a = ⟨a.x / sqrt (dotSelf4 a), a.y / sqrt (dotSelf4 a), a.z / sqrt (dotSelf4 a), a.w / sqrt (dotSelf4 a)⟩ := by
+theorem V4_normalized_eq (tmin tmax : α) (hsqrt : ∀ x, 0 ≤ x → sqrt x * sqrt x = x ∧ 0 ≤ sqrt x) (a : V4 α) :
+    Gen.C08.V4.normalized tmin tmax sqrt a = ⟨a.x / sqrt (dotSelf4 a), a.y / sqrt (dotSelf4 a), a.z / sqrt (dotSelf4 a), a.w / sqrt (dotSelf4 a)⟩ := by
   by_cases ha : a = ⟨0, 0, 0, 0⟩
-  · subst ha; simp [Gen.C08.V4.normalized, V4_length_eq tmin hsqrt, dotSelf4, sqrt_zero hsqrt]
+  · subst ha; simp [Gen.C08.V4.normalized, V4_length_eq tmin tmax hsqrt, dotSelf4, sqrt_zero hsqrt]
   · have hn := (norm4_pos hsqrt ha).ne'
     obtain ⟨x, y, z, w⟩ := a
     simp only [dotSelf4] at hn
-    simp only [Gen.C08.V4.normalized, V4_length_eq tmin hsqrt, dotSelf4, if_neg hn]
+    simp only [Gen.C08.V4.normalized, V4_length_eq tmin tmax hsqrt, dotSelf4, if_neg hn]
     first | done | (congr 1 <;> ring)
 
-theorem V4_normalized_of_ne_zero (tmin : α) (hsqrt : ∀ x, 0 ≤ x → sqrt x * sqrt x = x ∧ 0 ≤ sqrt x) (a : V4 α) (ha : a ≠ ⟨0, 0, 0, 0⟩) :
-    IsNormalized4 sqrt a (Gen.C08.V4.normalized tmin sqrt a) := by
-  rw [V4_normalized_eq tmin hsqrt a]; exact isNormalized4_div hsqrt ha
+theorem V4_normalized_of_ne_zero (tmin tmax : α) (hsqrt : ∀ x, 0 ≤ x → sqrt x * sqrt x = x ∧ 0 ≤ sqrt x) (a : V4 α) (ha : a ≠ ⟨0, 0, 0, 0⟩) :
+    IsNormalized4 sqrt a (Gen.C08.V4.normalized tmin tmax sqrt a) := by
+  rw [V4_normalized_eq tmin tmax hsqrt a]; exact isNormalized4_div hsqrt ha
 
-theorem V4_normalized_zero (tmin : α) (hsqrt : ∀ x, 0 ≤ x → sqrt x * sqrt x = x ∧ 0 ≤ sqrt x) :
-    Gen.C08.V4.normalized tmin sqrt ⟨0, 0, 0, 0⟩ = ⟨0, 0, 0, 0⟩ := by
-  simp [Gen.C08.V4.normalized, V4_length_eq tmin hsqrt, sqrt_zero hsqrt]
+theorem V4_normalized_zero (tmin tmax : α) (hsqrt : ∀ x, 0 ≤ x → sqrt x * sqrt x = x ∧ 0 ≤ sqrt x) :
+    Gen.C08.V4.normalized tmin tmax sqrt ⟨0, 0, 0, 0⟩ = ⟨0, 0, 0, 0⟩ := by
+  simp [Gen.C08.V4.normalized, V4_length_eq tmin tmax hsqrt, sqrt_zero hsqrt]
 
 /-- `normalizeNonNull()` (precondition: `a ≠ 0`; no test in the C++) -/
-theorem V4_normalizeNonNull_of_ne_zero (tmin : α) (hsqrt : ∀ x, 0 ≤ x → sqrt x * sqrt x = x ∧ 0 ≤ sqrt x) (a : V4 α) (ha : a ≠ ⟨0, 0, 0, 0⟩) :
-    IsNormalized4 sqrt a (Gen.C08.V4.normalizeNonNull tmin sqrt a) := by
-  have h : Gen.C08.V4.normalizeNonNull tmin sqrt a = ⟨a.x / sqrt (dotSelf4 a), a.y / sqrt (dotSelf4 a), a.z / sqrt (dotSelf4 a), a.w / sqrt (dotSelf4 a)⟩ := by
+theorem V4_normalizeNonNull_of_ne_zero (tmin tmax : α) (hsqrt : ∀ x, 0 ≤ x → sqrt x * sqrt x = x ∧ 0 ≤ sqrt x) (a : V4 α) (ha : a ≠ ⟨0, 0, 0, 0⟩) :
+    IsNormalized4 sqrt a (Gen.C08.V4.normalizeNonNull tmin tmax sqrt a) := by
+  have h : Gen.C08.V4.normalizeNonNull tmin tmax sqrt a = ⟨a.x / sqrt (dotSelf4 a), a.y / sqrt (dotSelf4 a), a.z / sqrt (dotSelf4 a), a.w / sqrt (dotSelf4 a)⟩ := by
     obtain ⟨x, y, z, w⟩ := a
-    simp only [Gen.C08.V4.normalizeNonNull, V4_length_eq tmin hsqrt, dotSelf4]
+    simp only [Gen.C08.V4.normalizeNonNull, V4_length_eq tmin tmax hsqrt, dotSelf4]
     first | done | (congr 1 <;> ring)
   rw [h]; exact isNormalized4_div hsqrt ha
 
 /-- `normalizedNonNull()` (precondition: `a ≠ 0`; no test in the C++) -/
-theorem V4_normalizedNonNull_of_ne_zero (tmin : α) (hsqrt : ∀ x, 0 ≤ x → sqrt x * sqrt x = x ∧ 0 ≤ sqrt x) (a : V4 α) (ha : a ≠ ⟨0, 0, 0, 0⟩) :
-    IsNormalized4 sqrt a (Gen.C08.V4.normalizedNonNull tmin sqrt a) := by
-  have h : Gen.C08.V4.normalizedNonNull tmin sqrt a = ⟨a.x / sqrt (dotSelf4 a), a.y / sqrt (dotSelf4 a), a.z / sqrt (dotSelf4 a), a.w / sqrt (dotSelf4 a)⟩ := by
+theorem V4_normalizedNonNull_of_ne_zero (tmin tmax : α) (hsqrt : ∀ x, 0 ≤ x → sqrt x * sqrt x = x ∧ 0 ≤ sqrt x) (a : V4 α) (ha : a ≠ ⟨0, 0, 0, 0⟩) :
+    IsNormalized4 sqrt a (Gen.C08.V4.normalizedNonNull tmin tmax sqrt a) := by
+  have h : Gen.C08.V4.normalizedNonNull tmin tmax sqrt a = ⟨a.x / sqrt (dotSelf4 a), a.y / sqrt (dotSelf4 a), a.z / sqrt (dotSelf4 a), a.w / sqrt (dotSelf4 a)⟩ := by
     obtain ⟨x, y, z, w⟩ := a
-    simp only [Gen.C08.V4.normalizedNonNull, V4_length_eq tmin hsqrt, dotSelf4]
+    simp only [Gen.C08.V4.normalizedNonNull, V4_length_eq tmin tmax hsqrt, dotSelf4]
     first | done | (congr 1 <;> ring)
   rw [h]; exact isNormalized4_div hsqrt ha
 
 /-- `normalizeExc()` on a non-zero vector: no exception, same result as `normalize()` -/
-theorem V4_normalizeExc_of_ne_zero (tmin : α) (hsqrt : ∀ x, 0 ≤ x → sqrt x * sqrt x = x ∧ 0 ≤ sqrt x) (a : V4 α) (ha : a ≠ ⟨0, 0, 0, 0⟩) :
-    Gen.C08.V4.normalizeExc tmin sqrt a = .ok (Gen.C08.V4.normalize tmin sqrt a) ∧ IsNormalized4 sqrt a (Gen.C08.V4.normalize tmin sqrt a) := by
-  refine ⟨?_, V4_normalize_of_ne_zero tmin hsqrt a ha⟩
-  have hl : Gen.V4.length tmin sqrt a ≠ 0 := fun h => ha ((V4_length_eq_zero_iff tmin hsqrt a).1 h)
+theorem V4_normalizeExc_of_ne_zero (tmin tmax : α) (hsqrt : ∀ x, 0 ≤ x → sqrt x * sqrt x = x ∧ 0 ≤ sqrt x) (a : V4 α) (ha : a ≠ ⟨0, 0, 0, 0⟩) :
+    Gen.C08.V4.normalizeExc tmin tmax sqrt a = .ok (Gen.C08.V4.normalize tmin tmax sqrt a) ∧ IsNormalized4 sqrt a (Gen.C08.V4.normalize tmin tmax sqrt a) := by
+  refine ⟨?_, V4_normalize_of_ne_zero tmin tmax hsqrt a ha⟩
+  have hl : Gen.V4.length tmin tmax sqrt a ≠ 0 := fun h => ha ((V4_length_eq_zero_iff tmin tmax hsqrt a).1 h)
   obtain ⟨x, y, z, w⟩ := a
   simp only [Gen.C08.V4.normalizeExc, Gen.C08.V4.normalize, if_neg hl]
   first | done | (congr 2 <;> ring)
 
 /-- `normalizeExc()` throws exactly when `length()` is 0, i.e. exactly for the zero vector, and what it throws is
 `std::domain_error` -/
-theorem V4_normalizeExc_throws_iff (tmin : α) (hsqrt : ∀ x, 0 ≤ x → sqrt x * sqrt x = x ∧ 0 ≤ sqrt x) (a : V4 α) :
-    ((∃ e, Gen.C08.V4.normalizeExc tmin sqrt a = .error e) ↔ Gen.V4.length tmin sqrt a = 0) ∧
-    ((∃ e, Gen.C08.V4.normalizeExc tmin sqrt a = .error e) ↔ a = ⟨0, 0, 0, 0⟩) ∧
-    (∀ e, Gen.C08.V4.normalizeExc tmin sqrt a = .error e → e = Exc.domainError) := by
-  have key : ∀ b : V4 α, ((∃ e, Gen.C08.V4.normalizeExc tmin sqrt b = .error e) ↔ Gen.V4.length tmin sqrt b = 0) ∧
-      (∀ e, Gen.C08.V4.normalizeExc tmin sqrt b = .error e → e = Exc.domainError) := by
+theorem V4_normalizeExc_throws_iff (tmin tmax : α) (hsqrt : ∀ x, 0 ≤ x → sqrt x * sqrt x = x ∧ 0 ≤ sqrt x) (a : V4 α) :
+    ((∃ e, Gen.C08.V4.normalizeExc tmin tmax sqrt a = .error e) ↔ Gen.V4.length tmin tmax sqrt a = 0) ∧
+    ((∃ e, Gen.C08.V4.normalizeExc tmin tmax sqrt a = .error e) ↔ a = ⟨0, 0, 0, 0⟩) ∧
+    (∀ e, Gen.C08.V4.normalizeExc tmin tmax sqrt a = .error e → e = Exc.domainError) := by
+  have key : ∀ b : V4 α, ((∃ e, Gen.C08.V4.normalizeExc tmin tmax sqrt b = .error e) ↔ Gen.V4.length tmin tmax sqrt b = 0) ∧
+      (∀ e, Gen.C08.V4.normalizeExc tmin tmax sqrt b = .error e → e = Exc.domainError) := by
     intro b
     obtain ⟨x, y, z, w⟩ := b
     simp only [Gen.C08.V4.normalizeExc]
     split_ifs with h
     · exact ⟨⟨fun _ => h, fun _ => ⟨_, rfl⟩⟩, fun e he => (by cases he; rfl)⟩
     · exact ⟨⟨fun ⟨e, he⟩ => (by cases he), fun h' => absurd h' h⟩, fun e he => (by cases he)⟩
-  exact ⟨(key a).1, (key a).1.trans (V4_length_eq_zero_iff tmin hsqrt a), (key a).2⟩
+  exact ⟨(key a).1, (key a).1.trans (V4_length_eq_zero_iff tmin tmax hsqrt a), (key a).2⟩
 
-theorem V4_normalizeExc_zero (tmin : α) (hsqrt : ∀ x, 0 ≤ x → sqrt x * sqrt x = x ∧ 0 ≤ sqrt x) :
-    Gen.C08.V4.normalizeExc tmin sqrt ⟨0, 0, 0, 0⟩ = .error Exc.domainError := by
-  simp [Gen.C08.V4.normalizeExc, V4_length_eq tmin hsqrt, sqrt_zero hsqrt]
+theorem V4_normalizeExc_zero (tmin tmax : α) (hsqrt : ∀ x, 0 ≤ x → sqrt x * sqrt x = x ∧ 0 ≤ sqrt x) :
+    Gen.C08.V4.normalizeExc tmin tmax sqrt ⟨0, 0, 0, 0⟩ = .error Exc.domainError := by
+  simp [Gen.C08.V4.normalizeExc, V4_length_eq tmin tmax hsqrt, sqrt_zero hsqrt]
 
 /-- `normalizedExc()` on a non-zero vector: no exception, same result as `normalized()` -/
-theorem V4_normalizedExc_of_ne_zero (tmin : α) (hsqrt : ∀ x, 0 ≤ x → sqrt x * sqrt x = x ∧ 0 ≤ sqrt x) (a : V4 α) (ha : a ≠ ⟨0, 0, 0, 0⟩) :
-    Gen.C08.V4.normalizedExc tmin sqrt a = .ok (Gen.C08.V4.normalized tmin sqrt a) ∧ IsNormalized4 sqrt a (Gen.C08.V4.normalized tmin sqrt a) := by
-  refine ⟨?_, V4_normalized_of_ne_zero tmin hsqrt a ha⟩
-  have hl : Gen.V4.length tmin sqrt a ≠ 0 := fun h => ha ((V4_length_eq_zero_iff tmin hsqrt a).1 h)
+theorem V4_normalizedExc_of_ne_zero (tmin tmax : α) (hsqrt : ∀ x, 0 ≤ x → sqrt x * sqrt x = x ∧ 0 ≤ sqrt x) (a : V4 α) (ha : a ≠ ⟨0, 0, 0, 0⟩) :
+    Gen.C08.V4.normalizedExc tmin tmax sqrt a = .ok (Gen.C08.V4.normalized tmin tmax sqrt a) ∧ IsNormalized4 sqrt a (Gen.C08.V4.normalized tmin tmax sqrt a) := by
+  refine ⟨?_, V4_normalized_of_ne_zero tmin tmax hsqrt a ha⟩
+  have hl : Gen.V4.length tmin tmax sqrt a ≠ 0 := fun h => ha ((V4_length_eq_zero_iff tmin tmax hsqrt a).1 h)
   obtain ⟨x, y, z, w⟩ := a
   simp only [Gen.C08.V4.normalizedExc, Gen.C08.V4.normalized, if_neg hl]
   first | done | (congr 2 <;> ring)
 
 /-- `normalizedExc()` throws exactly when `length()` is 0, i.e. exactly for the zero vector, and what it throws is
 `std::domain_error` -/
-theorem V4_normalizedExc_throws_iff (tmin : α) (hsqrt : ∀ x, 0 ≤ x → sqrt x * sqrt x = x ∧ 0 ≤ sqrt x) (a : V4 α) :
-    ((∃ e, Gen.C08.V4.normalizedExc tmin sqrt a = .error e) ↔ Gen.V4.length tmin sqrt a = 0) ∧
-    ((∃ e, Gen.C08.V4.normalizedExc tmin sqrt a = .error e) ↔ a = ⟨0, 0, 0, 0⟩) ∧
-    (∀ e, Gen.C08.V4.normalizedExc tmin sqrt a = .error e → e = Exc.domainError) := by
-  have key : ∀ b : V4 α, ((∃ e, Gen.C08.V4.normalizedExc tmin sqrt b = .error e) ↔ Gen.V4.length tmin sqrt b = 0) ∧
-      (∀ e, Gen.C08.V4.normalizedExc tmin sqrt b = .error e → e = Exc.domainError) := by
+theorem V4_normalizedExc_throws_iff (tmin tmax : α) (hsqrt : ∀ x, 0 ≤ x → sqrt x * sqrt x = x ∧ 0 ≤ sqrt x) (a : V4 α) :
+    ((∃ e, Gen.C08.V4.normalizedExc tmin tmax sqrt a = .error e) ↔ Gen.V4.length tmin tmax sqrt a = 0) ∧
+    ((∃ e, Gen.C08.V4.normalizedExc tmin tmax sqrt a = .error e) ↔ a = ⟨0, 0, 0, 0⟩) ∧
+    (∀ e, Gen.C08.V4.normalizedExc tmin tmax sqrt a = .error e → e = Exc.domainError) := by
+  have key : ∀ b : V4 α, ((∃ e, Gen.C08.V4.normalizedExc tmin tmax sqrt b = .error e) ↔ Gen.V4.length tmin tmax sqrt b = 0) ∧
+      (∀ e, Gen.C08.V4.normalizedExc tmin tmax sqrt b = .error e → e = Exc.domainError) := by
     intro b
     obtain ⟨x, y, z, w⟩ := b
     simp only [Gen.C08.V4.normalizedExc]
     split_ifs with h
     · exact ⟨⟨fun _ => h, fun _ => ⟨_, rfl⟩⟩, fun e he => (by cases he; rfl)⟩
     · exact ⟨⟨fun ⟨e, he⟩ => (by cases he), fun h' => absurd h' h⟩, fun e he => (by cases he)⟩
-  exact ⟨(key a).1, (key a).1.trans (V4_length_eq_zero_iff tmin hsqrt a), (key a).2⟩
+  exact ⟨(key a).1, (key a).1.trans (V4_length_eq_zero_iff tmin tmax hsqrt a), (key a).2⟩
 
-theorem V4_normalizedExc_zero (tmin : α) (hsqrt : ∀ x, 0 ≤ x → sqrt x * sqrt x = x ∧ 0 ≤ sqrt x) :
-    Gen.C08.V4.normalizedExc tmin sqrt ⟨0, 0, 0, 0⟩ = .error Exc.domainError := by
-  simp [Gen.C08.V4.normalizedExc, V4_length_eq tmin hsqrt, sqrt_zero hsqrt]
+theorem V4_normalizedExc_zero (tmin tmax : α) (hsqrt : ∀ x, 0 ≤ x → sqrt x * sqrt x = x ∧ 0 ≤ sqrt x) :
+    Gen.C08.V4.normalizedExc tmin tmax sqrt ⟨0, 0, 0, 0⟩ = .error Exc.domainError := by
+  simp [Gen.C08.V4.normalizedExc, V4_length_eq tmin tmax hsqrt, sqrt_zero hsqrt]
 
 /-- the normalised vector has `length()` exactly 1 (exact arithmetic) -/
-theorem V4_normalized_length_one (tmin : α) (hsqrt : ∀ x, 0 ≤ x → sqrt x * sqrt x = x ∧ 0 ≤ sqrt x) (a : V4 α) (ha : a ≠ ⟨0, 0, 0, 0⟩) :
-    Gen.V4.length tmin sqrt (Gen.C08.V4.normalized tmin sqrt a) = 1 := by
-  have h := (V4_normalized_of_ne_zero tmin hsqrt a ha).unit
-  rw [V4_length_eq tmin hsqrt]
+theorem V4_normalized_length_one (tmin tmax : α) (hsqrt : ∀ x, 0 ≤ x → sqrt x * sqrt x = x ∧ 0 ≤ sqrt x) (a : V4 α) (ha : a ≠ ⟨0, 0, 0, 0⟩) :
+    Gen.V4.length tmin tmax sqrt (Gen.C08.V4.normalized tmin tmax sqrt a) = 1 := by
+  have h := (V4_normalized_of_ne_zero tmin tmax hsqrt a ha).unit
+  rw [V4_length_eq tmin tmax hsqrt]
   simp only [dotSelf4] at h
   rw [h]; exact sqrt_one hsqrt
 
 /-- all six forms agree on a non-zero vector (the in-place and the const copies have the same shape) -/
-theorem V4_normalize_forms_agree (tmin : α) (hsqrt : ∀ x, 0 ≤ x → sqrt x * sqrt x = x ∧ 0 ≤ sqrt x) (a : V4 α) (ha : a ≠ ⟨0, 0, 0, 0⟩) :
-    Gen.C08.V4.normalize tmin sqrt a = Gen.C08.V4.normalized tmin sqrt a ∧
-    Gen.C08.V4.normalizeNonNull tmin sqrt a = Gen.C08.V4.normalized tmin sqrt a ∧
-    Gen.C08.V4.normalizedNonNull tmin sqrt a = Gen.C08.V4.normalized tmin sqrt a ∧
-    Gen.C08.V4.normalizeExc tmin sqrt a = .ok (Gen.C08.V4.normalized tmin sqrt a) ∧
-    Gen.C08.V4.normalizedExc tmin sqrt a = .ok (Gen.C08.V4.normalized tmin sqrt a) := by
-  have e1 := (V4_normalize_of_ne_zero tmin hsqrt a ha).eq
-  have e2 := (V4_normalized_of_ne_zero tmin hsqrt a ha).eq
-  have e3 := (V4_normalizeNonNull_of_ne_zero tmin hsqrt a ha).eq
-  have e4 := (V4_normalizedNonNull_of_ne_zero tmin hsqrt a ha).eq
-  refine ⟨e1.trans e2.symm, e3.trans e2.symm, e4.trans e2.symm, ?_, (V4_normalizedExc_of_ne_zero tmin hsqrt a ha).1⟩
-  rw [(V4_normalizeExc_of_ne_zero tmin hsqrt a ha).1, e1.trans e2.symm]
+theorem V4_normalize_forms_agree (tmin tmax : α) (hsqrt : ∀ x, 0 ≤ x → sqrt x * sqrt x = x ∧ 0 ≤ sqrt x) (a : V4 α) (ha : a ≠ ⟨0, 0, 0, 0⟩) :
+    Gen.C08.V4.normalize tmin tmax sqrt a = Gen.C08.V4.normalized tmin tmax sqrt a ∧
+    Gen.C08.V4.normalizeNonNull tmin tmax sqrt a = Gen.C08.V4.normalized tmin tmax sqrt a ∧
+    Gen.C08.V4.normalizedNonNull tmin tmax sqrt a = Gen.C08.V4.normalized tmin tmax sqrt a ∧
+    Gen.C08.V4.normalizeExc tmin tmax sqrt a = .ok (Gen.C08.V4.normalized tmin tmax sqrt a) ∧
+    Gen.C08.V4.normalizedExc tmin tmax sqrt a = .ok (Gen.C08.V4.normalized tmin tmax sqrt a) := by
+  have e1 := (V4_normalize_of_ne_zero tmin tmax hsqrt a ha).eq
+  have e2 := (V4_normalized_of_ne_zero tmin tmax hsqrt a ha).eq
+  have e3 := (V4_normalizeNonNull_of_ne_zero tmin tmax hsqrt a ha).eq
+  have e4 := (V4_normalizedNonNull_of_ne_zero tmin tmax hsqrt a ha).eq
+  refine ⟨e1.trans e2.symm, e3.trans e2.symm, e4.trans e2.symm, ?_, (V4_normalizedExc_of_ne_zero tmin tmax hsqrt a ha).1⟩
+  rw [(V4_normalizeExc_of_ne_zero tmin tmax hsqrt a ha).1, e1.trans e2.symm]
 end
 
 /-! ## over ℝ with `Real.sqrt` -/
 
 /-- over ℝ with the real square root: `length()` is the Euclidean norm -/
-theorem V2_length_spec_real (tmin : ℝ) (a : V2 ℝ) :
-    Gen.V2.length tmin Real.sqrt a = Real.sqrt (a.x ^ 2 + a.y ^ 2) := by
-  rw [V2_length_eq tmin hsqrt_real a]; congr 1; ring
+theorem V2_length_spec_real (tmin tmax : ℝ) (a : V2 ℝ) :
+    Gen.V2.length tmin tmax Real.sqrt a = Real.sqrt (a.x ^ 2 + a.y ^ 2) := by
+  rw [V2_length_eq tmin tmax hsqrt_real a]; congr 1; ring
 
-theorem V2_normalized_real (tmin : ℝ) (a : V2 ℝ) (ha : a ≠ ⟨0, 0⟩) :
-    IsNormalized2 Real.sqrt a (Gen.C08.V2.normalized tmin Real.sqrt a) :=
-  V2_normalized_of_ne_zero tmin hsqrt_real a ha
-
-/-- over ℝ with the real square root: `length()` is the Euclidean norm -/
-theorem V3_length_spec_real (tmin : ℝ) (a : V3 ℝ) :
-    Gen.V3.length tmin Real.sqrt a = Real.sqrt (a.x ^ 2 + a.y ^ 2 + a.z ^ 2) := by
-  rw [V3_length_eq tmin hsqrt_real a]; congr 1; ring
-
-theorem V3_normalized_real (tmin : ℝ) (a : V3 ℝ) (ha : a ≠ ⟨0, 0, 0⟩) :
-    IsNormalized3 Real.sqrt a (Gen.C08.V3.normalized tmin Real.sqrt a) :=
-  V3_normalized_of_ne_zero tmin hsqrt_real a ha
+theorem V2_normalized_real (tmin tmax : ℝ) (a : V2 ℝ) (ha : a ≠ ⟨0, 0⟩) :
+    IsNormalized2 Real.sqrt a (Gen.C08.V2.normalized tmin tmax Real.sqrt a) :=
+  V2_normalized_of_ne_zero tmin tmax hsqrt_real a ha
 
 /-- over ℝ with the real square root: `length()` is the Euclidean norm -/
-theorem V4_length_spec_real (tmin : ℝ) (a : V4 ℝ) :
-    Gen.V4.length tmin Real.sqrt a = Real.sqrt (a.x ^ 2 + a.y ^ 2 + a.z ^ 2 + a.w ^ 2) := by
-  rw [V4_length_eq tmin hsqrt_real a]; congr 1; ring
+theorem V3_length_spec_real (tmin tmax : ℝ) (a : V3 ℝ) :
+    Gen.V3.length tmin tmax Real.sqrt a = Real.sqrt (a.x ^ 2 + a.y ^ 2 + a.z ^ 2) := by
+  rw [V3_length_eq tmin tmax hsqrt_real a]; congr 1; ring
 
-theorem V4_normalized_real (tmin : ℝ) (a : V4 ℝ) (ha : a ≠ ⟨0, 0, 0, 0⟩) :
-    IsNormalized4 Real.sqrt a (Gen.C08.V4.normalized tmin Real.sqrt a) :=
-  V4_normalized_of_ne_zero tmin hsqrt_real a ha
+theorem V3_normalized_real (tmin tmax : ℝ) (a : V3 ℝ) (ha : a ≠ ⟨0, 0, 0⟩) :
+    IsNormalized3 Real.sqrt a (Gen.C08.V3.normalized tmin tmax Real.sqrt a) :=
+  V3_normalized_of_ne_zero tmin tmax hsqrt_real a ha
+
+/-- over ℝ with the real square root: `length()` is the Euclidean norm -/
+theorem V4_length_spec_real (tmin tmax : ℝ) (a : V4 ℝ) :
+    Gen.V4.length tmin tmax Real.sqrt a = Real.sqrt (a.x ^ 2 + a.y ^ 2 + a.z ^ 2 + a.w ^ 2) := by
+  rw [V4_length_eq tmin tmax hsqrt_real a]; congr 1; ring
+
+theorem V4_normalized_real (tmin tmax : ℝ) (a : V4 ℝ) (ha : a ≠ ⟨0, 0, 0, 0⟩) :
+    IsNormalized4 Real.sqrt a (Gen.C08.V4.normalized tmin tmax Real.sqrt a) :=
+  V4_normalized_of_ne_zero tmin tmax hsqrt_real a ha
 
 /-! ## non-vacuity: concrete vectors on both sides of the threshold -/
 
